@@ -55,8 +55,21 @@ Definition contiguous_index (s e : Z) : list Z :=
 
 (* ------------------------------------------------------------------ _get_dst_indices *)
 
+(* The two places where the code as it is breaks the property are switches of the model, so that the same text
+   describes the unchanged code (`as_coded`) and the code after the proposed repairs (`repaired`); the harness
+   detects which one the implementation shows (probe) and the theorems are stated for both.
+     count_rows   false: counts = df.groupby(date).count()["observed"]  (non-null usage cells: D11)
+                  true : rows of the date (groupby(date).size())
+     loc_by_mask  false: month = df.loc[date.isoformat()]  (label lookup, fails at midnight changes: D18)
+                  true : month = df[df.index.date == date] *)
+Record policy := { count_rows : bool; loc_by_mask : bool }.
+Definition as_coded : policy := {| count_rows := false; loc_by_mask := false |}.
+Definition repaired : policy := {| count_rows := true; loc_by_mask := true |}.
+
 (* counts = df.groupby(df.index.date).count(); counts["observed"] : non-null `observed` cells of the date *)
 Definition count_obs (d : day) : nat := length (filter hs_obs (d_rows d)).
+Definition day_count (pol : policy) (d : day) : nat := if count_rows pol then length (d_rows d) else count_obs d.
+Definition day_loc (pol : policy) (d : day) : option err := if loc_by_mask pol then None else d_loc d.
 Definition hours (d : day) : list nat := map hs_hour (d_rows d).
 
 (* set(range(24)) - set(month.index.hour) *)
@@ -74,43 +87,43 @@ Fixpoint first_repeat (seen : list nat) (hs : list nat) : option nat :=
 Definition dst_indices := (list (nat * nat) * list (nat * nat))%type.   (* (interp, mean) : (date_idx, hour) *)
 
 (* first loop; `last` is the Python variable `hour`, which survives into the second loop *)
-Fixpoint interp_loop (i : nat) (days : list day) (last : option nat)
+Fixpoint interp_loop (pol : policy) (i : nat) (days : list day) (last : option nat)
   : res (list (nat * nat) * option nat) :=
   match days with
   | [] => Ok ([], last)
   | d :: rest =>
-      if count_obs d =? 23 then
-        match d_loc d with
+      if day_count pol d =? 23 then
+        match day_loc pol d with
         | Some e => Err e                               (* month = df.loc[idx.isoformat()] *)
         | None =>
             match missing_hours d with
-            | [h] => bind (interp_loop (S i) rest (Some h)) (fun '(l, last') => Ok ((i, h) :: l, last'))
+            | [h] => bind (interp_loop pol (S i) rest (Some h)) (fun '(l, last') => Ok ((i, h) :: l, last'))
             | _ => Err EValue
             end
         end
-      else interp_loop (S i) rest last
+      else interp_loop pol (S i) rest last
   end.
 
-Fixpoint mean_loop (i : nat) (days : list day) (last : option nat) : res (list (nat * nat)) :=
+Fixpoint mean_loop (pol : policy) (i : nat) (days : list day) (last : option nat) : res (list (nat * nat)) :=
   match days with
   | [] => Ok []
   | d :: rest =>
-      if count_obs d =? 25 then
-        match d_loc d with
+      if day_count pol d =? 25 then
+        match day_loc pol d with
         | Some e => Err e
         | None =>
             let last' := match first_repeat [] (hours d) with Some h => Some h | None => last end in
             match last' with
             | None => Err EUnbound
-            | Some h => bind (mean_loop (S i) rest last') (fun l => Ok ((i, h) :: l))
+            | Some h => bind (mean_loop pol (S i) rest last') (fun l => Ok ((i, h) :: l))
             end
         end
-      else mean_loop (S i) rest last
+      else mean_loop pol (S i) rest last
   end.
 
-Definition get_dst_indices (days : list day) : res dst_indices :=
-  bind (interp_loop 0 days None) (fun '(interp, last) =>
-  bind (mean_loop 0 days last) (fun mean => Ok (interp, mean))).
+Definition get_dst_indices (pol : policy) (days : list day) : res dst_indices :=
+  bind (interp_loop pol 0 days None) (fun '(interp, last) =>
+  bind (mean_loop pol 0 days last) (fun mean => Ok (interp, mean))).
 
 (* ------------------------------------------------------------------ operations of _transform_dst *)
 
@@ -290,8 +303,8 @@ Section Values.
 
   Definition all24 (agg : list (list V)) : bool := forallb (fun f => length f =? 24) agg.
 
-  Definition hourly_predict (days : list day) : res (list (Z * option V)) :=
-    bind (get_dst_indices days) (fun idx =>
+  Definition hourly_predict (pol : policy) (days : list day) : res (list (Z * option V)) :=
+    bind (get_dst_indices pol days) (fun idx =>
     bind (feature_matrix (map (fun d => map feat (d_rows d)) days) idx) (fun agg =>
     if negb (all24 agg) then Err EShape else
     bind (transform_dst (regress agg) idx) (fun y =>
